@@ -185,4 +185,20 @@ let () =
         (match spec_oas_decode bs with
          | Some l -> out id "S" (dump l)
          | None -> out id "S" "invalid")
+    | "detect" ->
+        (match List.map z_of_hex (words payload) with
+         | _ :: coords ->
+             let rec pairs = function a :: b :: t -> (a, b) :: pairs t | _ -> [] in
+             let pts = pairs coords in
+             let rect = match is_rectangle pts with
+               | Some ((cx, cy), (sx, sy)) -> "R " ^ hex_of_z cx ^ " " ^ hex_of_z cy ^ " " ^ hex_of_z sx ^ " " ^ hex_of_z sy
+               | None -> "R-" in
+             let trap = match is_trapezoid pts with
+               | Some ((((ty, (cx, cy)), (sx, sy)), da), db) ->
+                   let t = int_of_n ty in
+                   "T " ^ string_of_int t ^ " " ^ hex_of_z cx ^ " " ^ hex_of_z cy ^ " " ^ hex_of_z sx ^ " " ^ hex_of_z sy ^
+                   (if t > 25 then " " ^ hex_of_z da ^ " " ^ hex_of_z db else "")
+               | None -> "T-" in
+             out id "M" (rect ^ " ; " ^ trap)
+         | [] -> out id "M" "bad-case")
     | _ -> ())
